@@ -95,3 +95,113 @@ package buffer
 
 //@ func NewLexer
 //@   ensures[S]  result != nil && lexBufInv(result) && result.pos == 0 && result.start == 0
+
+// ---- StreamLexer (C13). Ghost model (declared in the root package's contract file): stream(r, i) is the i-th byte the
+// reader delivers, delivered(r) the number delivered so far. The buffer always holds the last len(buf) delivered bytes,
+// so absolute stream offsets are  abs(z) + index  with  abs(z) = delivered(z.r) - len(z.buf).
+// Size assumptions under which no machine integer wraps (part of the invariant, established by the constructors and kept
+// by every method): positions below 2^57, capacities below 2^60, less than 2^60 bytes of free credit.
+//@ pred poolInv(p) := 0 <= p.head && p.head <= len(p.pool) && 0 <= p.tail && p.tail <= len(p.pool) && p.pos >= 0 &&
+//@     forall(i, 0, len(p.pool), 0 <= p.pool[i].next && p.pool[i].next <= len(p.pool) && len(p.pool[i].buf) <= cap(p.pool[i].buf) && cap(p.pool[i].buf) <= (1<<60))
+//@ pred slInv(z) := z != nil && 0 <= z.start && z.start <= z.pos && z.start <= len(z.buf) && z.pos <= (1<<57) && cap(z.buf) <= (1<<60) &&
+//@     z.free >= 0 && smallInt(z.pool.pos + z.free) && z.prevStart <= z.start && (z.r == nil ==> z.err != nil) && poolInv(z.pool)
+//@ pred slAbs(z) := delivered(z.r) - len(z.buf)
+//@ pred slView(z) := z.r != nil ==> delivered(z.r) >= len(z.buf) && forall(i, 0, len(z.buf), z.buf[i] == stream(z.r, delivered(z.r) - len(z.buf) + i))
+// what a refill may change: nothing the caller can observe through absolute offsets
+//@ pred slSameCursor(z) := slAbs(z) + z.start == old(slAbs(z) + z.start) && slAbs(z) + z.pos == old(slAbs(z) + z.pos) && slAbs(z) + z.prevStart == old(slAbs(z) + z.prevStart) && z.r == old(z.r)
+
+//@ func bufferPool.free
+//@   requires[S] z != nil && poolInv(z) && n >= 0 && smallInt(z.pos + n)
+//@   ensures[S]  poolInv(z) && len(z.pool) == old(len(z.pool)) && z.pos <= old(z.pos) + n
+//@   ensures[F]  sameBytes()
+//@   loop 1 invariant poolInv(z) && len(z.pool) == old(len(z.pool)) && z.pos <= old(z.pos) + n
+
+//@ func bufferPool.swap
+//@   requires[S] z != nil && poolInv(z) && size >= 0 && size <= (1<<60) && len(oldBuf) <= cap(oldBuf) && cap(oldBuf) <= (1<<60)
+//@   ensures[S]  poolInv(z) && len(result) == 0 && cap(result) >= size && cap(result) <= (1<<60) && z.pos <= old(z.pos)
+// the block handed out is new memory, the buffer of a block whose bytes were all freed (inactive), or the current buffer
+// itself, and the latter only when no older block is pending (tail == 0) and everything shifted from it has been freed
+//@   ensures[F]  sameBytesExcept(0, 0)
+//@   ensures[F,C13] @reuse: forall(i, 0, old(len(z.pool)), old(z.pool[i].active) || ptr(result) != old(ptr(z.pool[i].buf))) ==> fresh(result) || (ptr(result) == ptr(oldBuf) && old(z.tail) == 0 && old(z.pos) >= len(oldBuf))
+//@   loop 1 invariant 0 <= i && swap == -1
+
+//@ func StreamLexer.read
+//@   requires[S] slInv(z) && pos >= z.start && pos >= len(z.buf) && pos <= (1<<57) && z.prevStart >= -(1<<60)
+//@   ensures[S]  slInv(z) && z.prevStart >= old(z.prevStart) - (1<<57)
+//@   ensures[S]  @rebase: ite(old(z.err) == nil, z.start == 0 && z.pos == old(z.pos - z.start) && cap(z.buf) >= old(pos - z.start) + 1, z.start == old(z.start) && z.pos == old(z.pos) && sameSlice(z.buf, old(z.buf)))
+//@   requires[F] slView(z)
+//@   ensures[F]  slView(z)
+//@   ensures[F,C13] @cursor: slSameCursor(z)
+//@   ensures[F,C13] @byte: ite(old(slAbs(z)) + pos - slAbs(z) < len(z.buf), result == z.buf[old(slAbs(z)) + pos - slAbs(z)], result == 0 && z.err != nil)
+//@   ensures[F,C13] @kept: len(z.buf) - z.start >= old(len(z.buf) - z.start)
+//@   loop 1 invariant d >= 0 && d <= cap(buf) && d >= old(len(z.buf)) - z.start
+//@   loop 1 invariant[F] delivered(z.r) >= d && forall(i, 0, d, buf[i] == stream(z.r, delivered(z.r) - d + i))
+//@   loop 1 invariant[F] delivered(z.r) - d == old(delivered(z.r) - len(z.buf)) + z.start
+
+//@ func StreamLexer.Err
+//@   requires[S] z != nil
+//@   ensures[F,C13] @eof-hidden: z.err == io.EOF && z.pos < len(z.buf) ==> result == nil
+//@   ensures[F,C13] @err: !(z.err == io.EOF && z.pos < len(z.buf)) ==> result == z.err
+
+//@ func StreamLexer.Free
+//@   requires[S] slInv(z) && n >= 0 && smallInt(z.pool.pos + z.free + n)
+//@   ensures[S]  slInv(z) && z.free == old(z.free) + n
+
+//@ func StreamLexer.Peek
+//@   requires[S] slInv(z) && z.pos + pos >= z.start && z.pos + pos <= (1<<57) && z.prevStart >= -(1<<60)
+//@   ensures[S]  slInv(z) && z.prevStart >= old(z.prevStart) - (1<<57) && z.pos <= old(z.pos) && z.pos - z.start == old(z.pos - z.start)
+//@   requires[F] slView(z)
+//@   ensures[F]  slView(z)
+//@   ensures[F,C13] @cursor: slSameCursor(z)
+//@   ensures[F,C13] @byte: ite(z.pos + pos < len(z.buf), result == z.buf[z.pos + pos], result == 0 && z.err != nil)
+//@   ensures[F,C13] @noread: old(z.pos + pos < len(z.buf)) ==> sameBytes() && sameSlice(z.buf, old(z.buf)) && z.pos == old(z.pos) && z.start == old(z.start) && delivered(z.r) == old(delivered(z.r))
+
+//@ func StreamLexer.PeekRune
+//@   requires[S] slInv(z) && pos >= 0 && z.pos + pos + 3 <= (1<<57) && z.prevStart >= -(1<<59)
+//@   ensures[S]  slInv(z) && 1 <= result1 && result1 <= 4
+//@   requires[F] slView(z)
+//@   ensures[F]  slView(z)
+//@   ensures[F,C13] @cursor: slSameCursor(z)
+
+//@ func StreamLexer.Move
+//@   requires[S] slInv(z) && z.pos + n >= z.start && z.pos + n <= (1<<57) && smallInt(n)
+//@   ensures[S]  slInv(z) && z.pos == old(z.pos) + n
+
+//@ func StreamLexer.Pos
+//@   requires[S] slInv(z)
+//@   ensures[S]  result == z.pos - z.start
+
+//@ func StreamLexer.Rewind
+//@   requires[S] slInv(z) && pos >= 0 && z.start + pos <= (1<<57) && smallInt(pos)
+//@   ensures[S]  slInv(z) && z.pos == z.start + pos
+
+//@ func StreamLexer.Lexeme
+//@   requires[S] slInv(z) && z.pos <= len(z.buf)
+//@   ensures[S]  sameMem(result, z.buf[z.start:z.pos])
+
+//@ func StreamLexer.Skip
+//@   requires[S] slInv(z) && z.pos <= len(z.buf)
+//@   ensures[S]  slInv(z) && z.start == z.pos && z.pos == old(z.pos)
+
+// Shift over bytes that were never peeked refills first; when the stream ends before the position (a Move past the end of
+// the data, a caller error) the invariant is not promised.
+//@ func StreamLexer.Shift
+//@   requires[S] slInv(z) && (z.pos <= len(z.buf) || z.err == nil) && z.prevStart >= -(1<<60)
+//@   ensures[S]  z.pos <= len(z.buf) ==> slInv(z) && z.start == z.pos
+//@   requires[F] slView(z)
+//@   ensures[F]  slView(z)
+//@   ensures[F,C13] @abs: slAbs(z) + z.pos == old(slAbs(z) + z.pos) && slAbs(z) + z.prevStart == old(slAbs(z) + z.prevStart) && z.r == old(z.r)
+// the token is the stream from the absolute start to the absolute position (when that much data exists)
+//@   ensures[F,C13] @token: z.r != nil && z.pos <= len(z.buf) ==> len(result) == old(z.pos - z.start) && forall(i, 0, len(result), result[i] == stream(z.r, old(slAbs(z) + z.start) + i))
+
+//@ func StreamLexer.ShiftLen
+//@   requires[S] slInv(z) && z.prevStart >= -(1<<60)
+//@   ensures[S]  slInv(z)
+//@   ensures[F,C13] @count: result == slAbs(z) + z.start - old(slAbs(z) + z.prevStart) && z.prevStart == z.start && slAbs(z) == old(slAbs(z)) && result >= 0
+
+//@ func NewStreamLexerSize
+//@   requires[S] r != nil && size >= 0 && size <= (1<<60)
+//@   ensures[S]  slInv(result) && result.prevStart == 0
+//@ func NewStreamLexer
+//@   requires[S] r != nil
+//@   ensures[S]  slInv(result) && result.prevStart == 0
